@@ -4,13 +4,32 @@ import json, os
 V = '/verif'
 props = [json.loads(l) for l in open(f'{V}/properties.jsonl')]
 TECH = "bounded symbolic execution of the real go/ssa + SMT (z3) verdict over all inputs in the bound"
+STEP_NOTE = "Trusted: go/ssa, my SSA->SMT encoder (randomized differential test of the simplifier; every counterexample replayed natively), z3, and the mailbox specification layer in harness/board/spec.go, which is itself compared natively with the engine on ~7500 positions from the repo's own tests on each run of C01/C09. Slider lookups are summarised by the ray walk only for squares whose C12 lemma was re-proved on the same run."
 checks = {
+ "C01": dict(text="Solver verdict over ARBITRARY valid positions (64 symbolic cells, rights, e.p.; no material bound): per (side, from-square) the generator emits each encoding at most once and exactly the FIDE pseudo-legal ones (to-square and promotion bits symbolic); per concrete (side, from, to, promotion) the make-move + in-check filter rejects exactly the moves that leave the king attacked in the rule-book successor. Together: playable set == legal set, for positions however reached (the successor-validity induction is C02).",
+             note=STEP_NOTE+" Quick tier covers a seeded subset of the case split (stated in evidence.bounds), thorough all of it.", ref="DESIGN.md §4 C01"),
+ "C02": dict(text="One symbolic MakeMove step from an arbitrary valid position per concrete (side, from, to, promotion) case: placement, side to move, castling rights, both counters and the e.p. target (iff a legal e.p. capture exists in the successor) equal the mailbox rule-book successor, and the successor is valid again, so chains of any length follow by induction.",
+             note=STEP_NOTE+" Known finding (halfmove clock int8 wrap at 127) is excluded by an explicit assumption and reproduced by a witness instance on every run.", ref="DESIGN.md §4 C02"),
+ "C03": dict(text="One symbolic make+undo step (and null make+undo) from an arbitrary valid position with a symbolic hash history: every attribute (three placement encodings, rights, e.p., counters, history length and entries) is identical afterwards, for every pseudo-legal move of the case split; nesting depth follows by induction; histories around the slice capacity 128 included.",
+             note=STEP_NOTE, ref="DESIGN.md §4 C03"),
+ "C04": dict(text="One symbolic MakeMove / MakeNullMove step from an arbitrary valid position whose stored hash equals the from-scratch hash: afterwards the incremental hash equals the recomputed hash (64-bit Zobrist keys from the real init code) and the three placement encodings agree; the from-scratch hash is shown to be a function of placement/side/rights/e.p. only. Any interleaving of moves and null moves follows by induction.",
+             note=STEP_NOTE, ref="DESIGN.md §4 C04"),
+ "C05": dict(text="Solver verdict over ARBITRARY valid positions x all 512 encodings per from-square (to-square and the three promotion bits symbolic): IsPseudoLegal accepts an encoding iff the generator (both halves, observed at move.Store.Alloc) emits it.",
+             note=STEP_NOTE+" The defect found (promotion bits on non-promoting pawn moves) was repaired by a fix: commit; the check is unchanged.", ref="DESIGN.md §4 C05"),
+ "C09": dict(text="Solver verdict over ARBITRARY valid positions with engine-normalised e.p. state, case split on (side, king square): IsCheckmate / IsStalemate answer true exactly when an independent mailbox specification finds no legal move (and in-check agrees with geometry).",
+             note=STEP_NOTE+" The defect found (e.p. interposition reported as mate) was repaired by a fix: commit.", ref="DESIGN.md §4 C09"),
  "C12": dict(text="Solver verdict (unsat) over ALL 2^64 occupancies for each of the 64 squares and both slider kinds that the real magic lookup (mask, multiply, shift, table cell from the real init code) equals a ray walk; leapers, pawn helpers and InBetween likewise for every square/set/pair. No bound inside the property's domain, so this is exhaustive by solver.",
              note="Trusted: go/ssa's translation of the source, my SSA->SMT encoder (validated by a randomized differential test of the simplifier and by native replay of every counterexample), z3. Table contents come from running the real init code natively on each run.",
              ref="DESIGN.md §4 C12"),
  "C14": dict(text="Solver verdict over all five 64-bit clock fields and both colours inside the stated ranges (1..10^12 ms, increments to 10^9 ms) that the hard deadline is positive, within the remaining time, keeps the 30 ms margin, equals the move time when one is given, and (2-safety) does not depend on the opponent's clock; also that the nanosecond conversion arming the timer cannot overflow.",
              note="Trusted: encoder + z3. The timer/goroutine that consumes the value is outside (C13 not applicable).",
              ref="DESIGN.md §4 C14"),
+ "C15": dict(text="One inductive step of Insert / LookUp / Clear from an ARBITRARY table state (every bucket word and entry symbolic) satisfying the bucket invariant, for all hashes, generations (wrap included), depths/plies 0..63, scores -10001..10001 and bound types: probe-after-store content incl. mate re-basing and keep-move, keep-deeper rule, no phantom hits for other keys, at most one eviction, invariant preserved; match64 == first matching lane for every word/key; bucket index in range for every supported size.",
+             note="Trusted: encoder + z3. Resize (unsafe) is not encoded: 'resize then clear' is modelled as a cleared table of the new length.", ref="DESIGN.md §4 C15"),
+ "C16": dict(text="Partial: the history clauses of the property. Every update of the three history tables from any in-band value with any 16-bit bonus stays within +-1024 (inductive step); quiet ranks lie in +-3072 and never equal the duplicate sentinel nor reach a capture band; noisy ranks always lie in a capture band (SEE abstracted as an arbitrary boolean).",
+             note="Trusted: encoder + z3. NOT yet covered by this check: the staged iteration of the picker itself (each pseudo-legal move yielded exactly once, hash move first); it inherits C05 for the hash-move gate.", ref="DESIGN.md §4 C16"),
+ "C20": dict(text="Partial: the arithmetic core. Feistel network injective and in range for every bit width 1..64, every seed and ANY round function (uninterpreted); shuffleIndex as a whole a permutation for small n (exact-encoding fallback when an abstract counterexample does not replay); Batches tile [0,n) for every n <= 500000; Chunks tile every batch by induction on the real iterator.",
+             note="Trusted: encoder + z3. NOT covered: the file-backed manifest/reader (NewChunker, ByLines.Read, Chunk.Read) - the confirmed blank-line offset defect lives there and is recorded in DESIGN.md; that part is outside this check's claim.", ref="DESIGN.md §4 C20"),
 }
 na = {
  "C13": "goroutine interleavings, channels, timers and bufio/sync.Pool are the property's subject; a symbolic executor over go/ssa cannot encode the Go scheduler/runtime without replacing the real code by a model (DESIGN.md §5)",
